@@ -27,7 +27,7 @@
    7. fault_example            non-vacuity on a heap built by Struct.run: with caching on, a filter
         raising on one link gives F3Boom and leaves the state untouched (after a first link was
         already accepted); with a filter that does not raise the second call is a memo hit. *)
-From EG Require Import Base Lemmas State StateLemmas Nbrs NbrsDecide NbrsGen Struct StateRw Cache CacheProofs Faults.
+From EG Require Import Base Lemmas State StateLemmas Nbrs NbrsDecide NbrsLink Struct StateRw Cache CacheProofs Faults.
 
 (* ====================================================================================== *)
 (* 1. a callback that never raises                                                        *)
